@@ -1,5 +1,5 @@
 /- pyipmi/hpm.py: the status queries (UpgradeStatus, TargetUpgradeCapabilities, SelfTestResult in its
-   intended form — all eight flags of result byte 2 — and RollbackStatus). -/
+   intended form — all eight flags of result byte 2 — and RollbackStatus, intended and as shipped). -/
 import PyIpmi.Model.Api.Core
 import PyIpmi.Gen.Tables
 namespace PyIpmi.Model.Api
@@ -18,7 +18,15 @@ def api_query_selftest_results : Exchange :=
   { req := reqQuerySelftestResults, rsp := rspQuerySelftestResults, vals := .ok (fresh reqQuerySelftestResults),
     post := fun v => .ok (.natPair (intAt v 2) (intAt v 3 % 256)) }
 
+/-- query_rollback_status as INTENDED (fixes/C07-9): `RollbackStatus._from_rsp` keeps `rsp.rollback_status` (the mask
+of the rolled-back components) and `rsp.completion_estimate` (None while absent) -/
 def api_query_rollback_status : Exchange :=
+  { req := reqQueryRollbackStatus, rsp := rspQueryRollbackStatus, vals := .ok (fresh reqQueryRollbackStatus),
+    post := fun v => .ok (.rollback (intAt v 2) (optIntAt v 3)) }
+
+/-- AS SHIPPED: `_from_rsp` looks at `rsp.completion_estimate` only - `if rsp.completion_estimate:` copies a
+present, non-zero estimate - and never at `rsp.rollback_status`: the returned object has no component mask -/
+def api_query_rollback_status_shipped : Exchange :=
   { req := reqQueryRollbackStatus, rsp := rspQueryRollbackStatus, vals := .ok (fresh reqQueryRollbackStatus),
     post := fun v => .ok (.optNatPair none (match optIntAt v 3 with | some 0 => none | e => e)) }
 
